@@ -491,6 +491,57 @@ func c05Main(args []string) int {
 			rep.Kinds = append(rep.Kinds, kr)
 		}
 	}
+	// The executed transaction itself arrives in a non-canonical framing (a leading blank, a trailing newline, both):
+	// the replay record is keyed by the hash of the bytes AS RECEIVED (that is what Tendermint indexes), so a
+	// byte-identical copy of it must be recognised like any other
+	if *only == "" || strings.HasPrefix(*only, "FRAMED") {
+		for _, flow := range []string{"FRAMED_LEADING_SPACE", "FRAMED_TRAILING_NEWLINE", "FRAMED_BOTH"} {
+			l := newLab(0)
+			w := l.W
+			GAS = 1000000
+			tx := txSend(w.Users[0], w.Users[1].Addr, oltAmt("1000000000000"), l.memo())
+			var base []byte
+			switch flow {
+			case "FRAMED_LEADING_SPACE":
+				base = append([]byte(" "), tx...)
+			case "FRAMED_TRAILING_NEWLINE":
+				base = append(append([]byte{}, tx...), '\n')
+			default:
+				base = append(append([]byte("\t "), tx...), []byte(" \r\n")...)
+			}
+			kr := c05Kind{Kind: flow, Base: hx(base)}
+			in := &BlockIn{Absent: map[int]bool{}}
+			l.Rep.BeginBlock(in)
+			v0 := l.Rep.View()
+			res := l.Rep.DeliverTx(base)
+			kr.BaseCode = res.Code
+			kr.BaseEffect = len(diffKeys(v0, l.Rep.View())) > 0
+			l.Rep.EndBlock()
+			l.Rep.Commit()
+			if res.Code == 0 {
+				l.Rep.RunBlock(in)
+				subs := []labMutant{{"identical", "same", base}}
+				l.Rep.BeginBlock(in)
+				for _, sb := range subs {
+					c := l.Rep.CheckTx(sb.Tx)
+					va := l.Rep.View()
+					d := l.Rep.DeliverTx(sb.Tx)
+					ch := diffKeys(va, l.Rep.View())
+					sr := c05Sub{Name: sb.Name, SameParsed: true, CheckCode: c.Code, CheckDup: strings.Contains(c.Log, "duplicated tx"),
+						Deliver: d.Code, Effect: len(ch) > 0, Tx: hx(sb.Tx)}
+					if len(ch) > 6 {
+						ch = ch[:6]
+					}
+					sr.Changed = ch
+					kr.Subs = append(kr.Subs, sr)
+				}
+				l.Rep.EndBlock()
+				l.Rep.Commit()
+			}
+			l.Rep.Close()
+			rep.Kinds = append(rep.Kinds, kr)
+		}
+	}
 	// Allegations: the request record is DELETED when the validators have decided (guilty or innocent), so after the
 	// verdict nothing of the executed ALLEGATION stays taken: what does a re-encoding of it do then?
 	if *only == "" || strings.HasPrefix(*only, "ALLEGATION_AFTER") {
